@@ -16,24 +16,14 @@ from typing import List
 from ..index import Repo, AnchorError
 from ..cfg import CFG, path_of
 from ..astutil import unparse, call_name, func_params, strip_docstring
-from .common import site
+from .common import site, canon_fn, cfgv, pmatch, nodes_matching, guarded, match, stmts, views
+from ..pattern import norm as pn, unify, find
 
 JD = "cuqi/distribution/_joint_distribution.py"
 
 
 def _norm(e) -> str:
     return unparse(e).replace(" ", "").replace("\n", "")
-
-
-def _guarded_raise(g: CFG, consumer, test_txt: str, label: str) -> bool:
-    """consumer requires `label` edge of test `test_txt`, whose other edge leads only to a raise"""
-    for t, lab in g.guards_of(consumer):
-        if _norm(t.ast) == test_txt and lab == label:
-            other = "T" if label == "F" else "F"
-            tgt = [m for m, l in g.succ[t.id] if l == other]
-            reach = g.reachable_from(tgt)
-            return g.exit.id not in reach or not any(m == consumer.id for m in reach)
-    return False
 
 
 def run(chk, repo: Repo):
@@ -47,170 +37,221 @@ def run(chk, repo: Repo):
     _r3_r4(chk, repo)
     # R5 shared with C11-R3
     from . import c11
-    before = len(chk.obligations)
-    c11._r3(chk, repo)
-    for o in chk.obligations[before:]:
-        o.rule = "C01-R5"
+    from .common import shadow
+    shadow(chk, "C11-R3", "C01-R5", lambda c: c11._r3(c, repo))
+
+
+def _one(nodes, what):
+    if len(nodes) != 1:
+        return None
+    return nodes[0]
 
 
 def _r1(chk, repo):
+    """All rules below are decided on the canonical view (structural normal form, private helpers inlined, temporaries substituted);
+    local names are metavariables. `recognised` = the protected statement itself was found."""
     dens = repo.cls("cuqi/density/_density.py:Density")
     f = repo.method(dens, "logd")[1]
-    g = CFG(f)
-    ret = [n for n in g.returns() if "self._logd(*args)" in _norm(n.ast)]
-    reord = [n for n in g.nodes if n.ast is not None and n.kind == "stmt" and _norm(n.ast) == "args=[kwargs[name]fornameinpar_names]"]
-    if len(ret) != 1 or len(reord) != 1:
-        raise AnchorError("Density.logd: evaluation / keyword re-ordering not found")
-    chk.add("C01-R1", f"{dens.qual}.logd/positional+keyword", _guarded_raise(g, reord[0], "len(args)>0", "F"), site(repo, f),
-            "positional and keyword arguments together are refused", "positional and keyword arguments can be mixed in an evaluation", f)
-    chk.add("C01-R1", f"{dens.qual}.logd/names", _guarded_raise(g, reord[0], "set(par_names)!=set(kwargs.keys())", "F"), site(repo, f),
-            "keyword names must equal the parameter names", "an evaluation with missing or unknown keyword names is not refused", f)
+    v, g = cfgv(repo, dens, f)
+    # the protected step: keyword values are turned into the positional list that is evaluated
+    reord = nodes_matching(g, "$a=[kwargs[_k0] for _k0 in $pn]")
+    ret = [n for n in g.returns() if "self._logd(*" in pn(n.ast)]
+    rec = len(reord) == 1 and len(ret) >= 1
+    r0 = reord[0][0] if rec else None
+    chk.decide("C01-R1", f"{dens.qual}.logd/positional+keyword", rec and (guarded(g, r0, "0<len(args)", "F") or guarded(g, r0, "len(args)==0", "T") or guarded(g, r0, "args", "F")),
+               rec, site(repo, f), "positional and keyword arguments together are refused", "positional and keyword arguments can be mixed in an evaluation", f)
+    b = reord[0][1] if rec else {}
+    ok = rec and (guarded(g, r0, "set($pn)!=set(kwargs.keys())", "F", b) or guarded(g, r0, "set(kwargs.keys())!=set($pn)", "F", b)
+                  or guarded(g, r0, "set($pn)==set(kwargs.keys())", "T", b) or guarded(g, r0, "set(kwargs.keys())==set($pn)", "T", b)
+                  or guarded(g, r0, "set(kwargs)!=set($pn)", "F", b) or guarded(g, r0, "set($pn)!=set(kwargs)", "F", b))
+    chk.decide("C01-R1", f"{dens.qual}.logd/names", ok, rec, site(repo, f),
+               "keyword names must equal the parameter names", "an evaluation with missing or unknown keyword names is not refused", f)
+
     jd = repo.cls(f"{JD}:JointDistribution")
     f = repo.method(jd, "logd")[1]
-    g = CFG(f)
-    loops = [n for n in g.nodes if n.kind == "iter"]
-    if len(loops) != 1:
-        raise AnchorError("JointDistribution.logd: accumulation loop not found")
-    chk.add("C01-R1", f"{jd.qual}.logd/names", _guarded_raise(g, loops[0], "set(self.get_parameter_names())!=set(kwargs.keys())", "F"), site(repo, f),
-            "all and only the joint's parameters must be given", "joint evaluation with missing/unknown variables is not refused", f)
-    pk = [n for n in g.nodes if n.ast is not None and _norm(n.ast) == "kwargs=self._parse_args_add_to_kwargs(*args,**kwargs)"]
-    chk.add("C01-R1", f"{jd.qual}.logd/parse", len(pk) == 1 and g.dominates(pk[0], loops[0]), site(repo, f), "positional arguments merged (with duplicate check) first",
-            "positional arguments are not merged through _parse_args_add_to_kwargs before evaluation", f)
-    for ci, fname in ((jd, "_parse_args_add_to_kwargs"), (repo.cls("cuqi/distribution/_distribution.py:Distribution"), "_parse_args_add_to_kwargs")):
-        f = repo.method(ci, fname)[1]
-        g = CFG(f)
-        st = [n for n in g.nodes if isinstance(n.ast, ast.Assign) and isinstance(n.ast.targets[0], ast.Subscript) and path_of(n.ast.targets[0].value) == "kwargs"]
-        ok = len(st) == 1 and _guarded_raise(g, st[0], "ordered_keys[index]inkwargs", "F")
-        chk.add("C01-R1", f"{ci.qual}.{fname}/double", ok, site(repo, f), "a variable given positionally and by keyword is refused",
-                "a variable can be passed both positionally and by keyword", f)
+    v, g = cfgv(repo, jd, f)
+    loops = [n for n in g.nodes if n.kind == "iter" and path_of(n.ast.iter) == "self._densities"]
+    rec = len(loops) == 1
+    l0 = loops[0] if rec else None
+    ok = rec and any(guarded(g, l0, p, lab) for p, lab in (("set(kwargs.keys())!=set(self.get_parameter_names())", "F"), ("set(self.get_parameter_names())!=set(kwargs.keys())", "F"),
+                                                             ("set(kwargs.keys())==set(self.get_parameter_names())", "T"), ("set(self.get_parameter_names())==set(kwargs.keys())", "T")))
+    chk.decide("C01-R1", f"{jd.qual}.logd/names", ok, rec, site(repo, f),
+               "all and only the joint's parameters must be given", "joint evaluation with missing/unknown variables is not refused", f)
+    pk = nodes_matching(g, "kwargs=self._parse_args_add_to_kwargs(*args,**kwargs)")
+    chk.decide("C01-R1", f"{jd.qual}.logd/parse", rec and len(pk) == 1 and g.dominates(pk[0][0], l0), rec, site(repo, f),
+               "positional arguments merged (with duplicate check) first", "positional arguments are not merged through _parse_args_add_to_kwargs before evaluation", f)
     dist = repo.cls("cuqi/distribution/_distribution.py:Distribution")
-    f = repo.method(dist, "_parse_args_add_to_kwargs")[1]
-    g = CFG(f)
-    st = [n for n in g.nodes if isinstance(n.ast, ast.Assign) and isinstance(n.ast.targets[0], ast.Subscript) and path_of(n.ast.targets[0].value) == "kwargs"]
-    ok = bool(st) and _guarded_raise(g, st[0], "len(args)>len(cond_vars)+1", "F")
-    chk.add("C01-R1", f"{dist.qual}._parse_args_add_to_kwargs/arity", ok, site(repo, f), "too many positional values are refused", "too many positional values are accepted", f)
+    for ci, fname in ((jd, "_parse_args_add_to_kwargs"), (dist, "_parse_args_add_to_kwargs")):
+        f = repo.method(ci, fname)[1]
+        v, g = cfgv(repo, ci, f)
+        st = nodes_matching(g, "kwargs[$keys[$i]]=$arg")
+        rec = len(st) == 1
+        ok = rec and guarded(g, st[0][0], "$keys[$i] in kwargs", "F", st[0][1])
+        chk.decide("C01-R1", f"{ci.qual}.{fname}/double", ok, rec, site(repo, f), "a variable given positionally and by keyword is refused",
+                   "a variable can be passed both positionally and by keyword", f)
+        if ci is dist:
+            cv = func_params(f)[1]
+            ok = rec and (guarded(g, st[0][0], f"len({cv})+1<len(args)", "F") or guarded(g, st[0][0], f"len(args)<=len({cv})+1", "T"))
+            chk.decide("C01-R1", f"{dist.qual}._parse_args_add_to_kwargs/arity", ok, rec, site(repo, f), "too many positional values are refused",
+                       "too many positional values are accepted", f)
     f = repo.method(dist, "logd")[1]
-    g = CFG(f)
-    cond = [n for n in g.nodes if n.ast is not None and n.kind == "stmt" and _norm(n.ast) == "new_dist=self(**cond_kwargs)"]
-    if len(cond) != 1:
-        raise AnchorError("Distribution.logd: conditioning step not found")
-    chk.add("C01-R1", f"{dist.qual}.logd/enough", _guarded_raise(g, cond[0], "not_enough_args", "F"), site(repo, f), "too few values refused", "too few values are not refused", f)
-    chk.add("C01-R1", f"{dist.qual}.logd/all-cond-vars", _guarded_raise(g, cond[0], "all_cond_vars_specified", "T"), site(repo, f),
-            "every conditioning variable must be given", "an evaluation with a missing conditioning variable is not refused", f)
-    t = _norm(f)
-    ok = "not_enough_args=len(kwargs)<len(cond_vars)+1" in t and "all_cond_vars_specified=all([keyinkwargsforkeyincond_vars])" in t and "cond_kwargs={key:kwargs[key]forkeyincond_vars}" in t
-    chk.add("C01-R1", f"{dist.qual}.logd/predicates", ok, site(repo, f), "predicates count main parameter + conditioning variables", "validation predicates changed", f)
+    v, g = cfgv(repo, dist, f)
+    # the protected step: the conditional is evaluated through its conditioned copy self(**{cond var: value})
+    cond = [(n, b) for n, b in nodes_matching(g, "$nd=self(**{_k0:kwargs[_k0] for _k0 in $cv})")]
+    rec = len(cond) == 1
+    c0, b = (cond[0] if rec else (None, {}))
+    ok = rec and (guarded(g, c0, "len(kwargs)<len($cv)+1", "F", b))
+    chk.decide("C01-R1", f"{dist.qual}.logd/enough", ok, rec, site(repo, f), "too few values refused", "too few values are not refused", f)
+    ok = rec and (guarded(g, c0, "all([_k0 in kwargs for _k0 in $cv])", "T", b) or guarded(g, c0, "all((_k0 in kwargs for _k0 in $cv))", "T", b))
+    chk.decide("C01-R1", f"{dist.qual}.logd/all-cond-vars", ok, rec, site(repo, f),
+               "every conditioning variable must be given", "an evaluation with a missing conditioning variable is not refused", f)
+    ok = rec and len(nodes_matching(g, "$cv=self.get_conditioning_variables()", b)) == 1
+    chk.decide("C01-R1", f"{dist.qual}.logd/predicates", ok, rec, site(repo, f), "predicates count main parameter + conditioning variables of this distribution",
+               "validation predicates do not refer to the distribution's own conditioning variables", f)
     # conditional distributions are evaluated only after conditioning (never on self)
-    direct = [n for n in g.returns() if "super().logd(" in _norm(n.ast)]
-    ok = len(direct) == 1 and any(_norm(t.ast) == "len(cond_vars)>0" and lab == "F" for t, lab in g.guards_of(direct[0]))
-    chk.add("C01-R1", f"{dist.qual}.logd/conditional-first", ok, site(repo, f), "a conditional distribution is evaluated only through its conditioned copy",
-            "a distribution with open conditioning variables can be evaluated directly", f)
+    direct = [n for n in g.returns() if "super().logd(" in pn(n.ast)]
+    rec2 = len(direct) == 1
+    ok = rec2 and rec and (guarded(g, direct[0], "0<len($cv)", "F", b) or guarded(g, direct[0], "len($cv)==0", "T", b))
+    chk.decide("C01-R1", f"{dist.qual}.logd/conditional-first", ok, rec2 and rec, site(repo, f), "a conditional distribution is evaluated only through its conditioned copy",
+               "a distribution with open conditioning variables can be evaluated directly", f)
     cnd = repo.method(dist, "_condition")[1]
-    t = _norm(cnd)
-    ok = "ifkw_keyinmutable_varsandkw_keynotincond_vars:raiseValueError" in t and "ifkw_keynotinmutable_vars+cond_vars+[self.name]:raiseValueError" in t
-    chk.add("C01-R1", f"{dist.qual}._condition/unknown-keywords", ok, site(repo, cnd), "unknown keywords and fixed mutable variables are refused",
-            "conditioning accepts unknown keywords", cnd)
+    S = stmts(repo, dist, cnd)
+    b1, _ = unify(["$mv=self.get_mutable_variables()", "$cv=self.get_conditioning_variables()", "for: $k : kwargs.keys()", "if: $k in $mv and $k not in $cv"], S)
+    b2 = None
+    if b1:
+        for alt in ("if: $k2 not in $mv+$cv+[self.name]", "if: $k2 in $mv+$cv+[self.name]"):
+            b2, _ = unify([alt], S, b1, distinct=False)
+            if b2:
+                break
+    rec = any(t.startswith("for:") and t.endswith("kwargs.keys()") for t, _ in S)
+    chk.decide("C01-R1", f"{dist.qual}._condition/unknown-keywords", bool(b1 and b2), rec, site(repo, cnd), "unknown keywords and fixed mutable variables are refused",
+               "conditioning accepts unknown keywords", cnd)
 
 
 def _r2(chk, repo):
     dens = repo.cls("cuqi/density/_density.py:Density")
     f = repo.method(dens, "logd")[1]
-    rets = [_norm(n.value) for n in ast.walk(f) if isinstance(n, ast.Return)]
-    chk.add("C01-R2", f"{dens.qual}.logd/constant", rets == ["self._logd(*args)+self._constant"], site(repo, f), "_logd + folded constant",
-            f"Density.logd returns {rets}: the folded constant of fixed variables is not added", f)
+    v, g = cfgv(repo, dens, f)
+    rets = [pn(n.ast.value) for n in g.returns()]
+    good = {"self._logd(*args)+self._constant", "self._constant+self._logd(*args)"}
+    ok = bool(rets) and all(r in good or pmatch("self._logd(*$a)+self._constant", r) is not None or pmatch("self._constant+self._logd(*$a)", r) is not None for r in rets)
+    rec = any("self._logd(" in r for r in rets)
+    chk.decide("C01-R2", f"{dens.qual}.logd/constant", ok, rec, site(repo, f), "_logd + folded constant",
+               f"Density.logd returns {rets}: the folded constant of fixed variables is not added on every path", f)
     init = repo.method(dens, "__init__")[1]
-    chk.add("C01-R2", f"{dens.qual}.__init__/constant", "self._constant=0" in _norm(init), site(repo, init), "constant starts at 0", "constant does not start at 0", init)
+    chk.add("C01-R2", f"{dens.qual}.__init__/constant", "self._constant=0" in views(repo, dens, init), site(repo, init), "constant starts at 0", "constant does not start at 0", init)
     jd = repo.cls(f"{JD}:JointDistribution")
     red = repo.method(jd, "_reduce_to_single_density")[1]
-    g = CFG(red)
-    problems = []
-    allowed = {"self", "MultipleLikelihoodPosterior(*self._densities)", "self._add_constants_to_density(Posterior(self._likelihoods[0],self._distributions[0]))",
-               "self._add_constants_to_density(self._distributions[0])"}
-    for r in g.returns():
-        v = _norm(r.ast.value)
-        if v in allowed:
-            continue
-        if v == "self._likelihoods[0]":
-            gs = {(_norm(t.ast), lab) for t, lab in g.guards_of(r)}
-            if ("n_likelihood==1", "T") in gs and ("n_dist==0", "T") in gs:
-                chk.note("C01-R2 `return self._likelihoods[0]` (no distribution left): unreachable from the public API — the constructor requires a prior for "
-                         "every likelihood parameter, and fixing all priors turns the likelihood into an evaluated density — tabled")
+    allowed = {pn(x) for x in ("self", "MultipleLikelihoodPosterior(*self._densities)",
+                               "self._add_constants_to_density(Posterior(self._likelihoods[0],self._distributions[0]))",
+                               "self._add_constants_to_density(self._distributions[0])")}
+    best = None
+    for level in (1, 4, 3, 0):
+        v, g = cfgv(repo, jd, red, level)
+        problems = []
+        for r in g.returns():
+            val = r.ast.value
+            if val is None or (isinstance(val, ast.Constant) and val.value is None):
+                continue      # what falling off the end gives: branches are exhaustive over (n_dist, n_likelihood) by reading
+            t = pn(val)
+            if t in allowed:
                 continue
-        problems.append(f"line {r.lineno}: returns `{unparse(r.ast.value)}` without all factors / without folding the constants of the fixed variables")
-    if g.falls_off_end:
-        chk.note("C01-R2 _reduce_to_single_density has a fall-through path (no branch matches): branches are exhaustive over (n_dist, n_likelihood) by reading")
-    chk.add("C01-R2", f"{jd.qual}._reduce_to_single_density", not problems, site(repo, red), "every reduction keeps all factors or folds the fixed ones' sum", "; ".join(problems), red)
+            if t == "self._likelihoods[0]":
+                continue      # no distribution left: unreachable from the public API (the constructor requires a prior for every likelihood parameter)
+            problems.append(f"line {r.lineno}: returns `{unparse(val)}` without all factors / without folding the constants of the fixed variables")
+        if best is None or len(problems) < len(best):
+            best = problems
+    chk.note("C01-R2 `return self._likelihoods[0]` / falling off the end of _reduce_to_single_density are tabled as unreachable from the public API")
+    chk.add("C01-R2", f"{jd.qual}._reduce_to_single_density", not best, site(repo, red), "every reduction keeps all factors or folds the fixed ones' sum", "; ".join(best), red)
     add = repo.method(jd, "_add_constants_to_density")[1]
-    t = _norm(add)
-    ok = ("density._constant=density._constant+self._sum_evaluated_densities()" in t or "density._constant+=self._sum_evaluated_densities()" in t) and "returndensity" in t \
-        and "ifisinstance(density,EvaluatedDensity):raiseValueError" in t
-    chk.add("C01-R2", f"{jd.qual}._add_constants_to_density", ok, site(repo, add), "adds the sum of all evaluated densities to the reduced density's constant",
-            "the sum of the fixed variables' log-densities is not added to the reduced density", add)
+    d = func_params(add)[1]
+    V = views(repo, jd, add)
+    upd = any(x in V for x in (f"{d}._constant={d}._constant+self._sum_evaluated_densities()", f"{d}._constant+=self._sum_evaluated_densities()",
+                               f"{d}._constant=self._sum_evaluated_densities()+{d}._constant"))
+    v, g = cfgv(repo, jd, add)
+    rets = [pn(r.ast.value) for r in g.returns()]
+    ok = upd and rets and all(r == d for r in rets)
+    rec = f"{d}._constant" in V
+    chk.decide("C01-R2", f"{jd.qual}._add_constants_to_density", ok, rec or not upd, site(repo, add), "adds the sum of all evaluated densities to the reduced density's constant",
+               "the sum of the fixed variables' log-densities is not added to the reduced density (or another object is returned)", add)
     se = repo.method(jd, "_sum_evaluated_densities")[1]
-    rets = [_norm(n.value) for n in ast.walk(se) if isinstance(n, ast.Return)]
-    ok = rets == ["sum([density.logd()fordensityinself._evaluated_densities])"]
+    V = views(repo, jd, se)
+    ok = any(x in V for x in ("return sum([_k0.logd() for _k0 in self._evaluated_densities])", "return sum((_k0.logd() for _k0 in self._evaluated_densities))"))
     ev = jd.props.get("_evaluated_densities")
-    ok = ok and ev is not None and "[eval_densforeval_densinself._densitiesifisinstance(eval_dens,EvaluatedDensity)]" in _norm(ev.getter)
+    ok = ok and ev is not None and "[_k0 for _k0 in self._densities if isinstance(_k0,EvaluatedDensity)]" in views(repo, jd, ev.getter)
     chk.add("C01-R2", f"{jd.qual}._sum_evaluated_densities", ok, site(repo, se), "sum of logd() over exactly the EvaluatedDensity factors",
             "the folded constant is not the sum over all evaluated factors", se)
     dist = repo.cls("cuqi/distribution/_distribution.py:Distribution")
     tl = repo.method(dist, "to_likelihood")[1]
-    g = CFG(tl)
+    v, g = cfgv(repo, dist, tl)
     ev = [r for r in g.returns() if isinstance(r.ast.value, ast.Call) and call_name(r.ast.value) == "EvaluatedDensity"]
     d = func_params(tl)[1]
-    ok = len(ev) == 1 and _norm(ev[0].ast.value) == f"EvaluatedDensity(self.logd({d}),name=self.name)" and \
-        any(_norm(t.ast) == "self.is_cond" and lab == "F" for t, lab in g.guards_of(ev[0]))
-    chk.add("C01-R2", f"{dist.qual}.to_likelihood", ok, site(repo, tl), "fully fixed distribution -> EvaluatedDensity(self.logd(data)) (constant included), keeping the name",
-            f"a fully conditioned distribution is turned into `{unparse(ev[0].ast.value) if ev else '?'}`: logpdf/_logd instead of logd drops the constant "
-            f"already folded into a reduced density, so fixing the last variable in a separate call loses earlier contributions", tl)
-    ok = any(_norm(r.ast.value) == f"Likelihood(self,{d})" for r in g.returns())
+    rec = len(ev) == 1
+    ok = rec and pn(ev[0].ast.value) == f"EvaluatedDensity(self.logd({d}),name=self.name)" and \
+        (guarded(g, ev[0], "self.is_cond", "F") or guarded(g, ev[0], "not self.is_cond", "T"))
+    chk.decide("C01-R2", f"{dist.qual}.to_likelihood", ok, rec, site(repo, tl), "fully fixed distribution -> EvaluatedDensity(self.logd(data)) (constant included), keeping the name",
+               f"a fully conditioned distribution is turned into `{unparse(ev[0].ast.value) if ev else '?'}`: logpdf/_logd instead of logd drops the constant "
+               f"already folded into a reduced density, so fixing the last variable in a separate call loses earlier contributions", tl)
+    ok = any(pn(r.ast.value) == f"Likelihood(self,{d})" for r in g.returns())
     chk.add("C01-R2", f"{dist.qual}.to_likelihood/conditional", ok, site(repo, tl), "conditional distribution -> Likelihood(self, data)", "to_likelihood conditional branch changed", tl)
     lk = repo.cls("cuqi/likelihood/_likelihood.py:Likelihood")
     c = lk.props.get("_constant")
-    ok = c is not None and [_norm(s) for s in c.getter.body] == ["returnself.distribution._constant"]
+    ok = c is not None and "return self.distribution._constant" in views(repo, lk, c.getter)
     lg = repo.method(lk, "_logd")[1]
-    ok = ok and any(_norm(n.value) == "self.distribution(*args,**kwargs).logd(self.data)" for n in ast.walk(lg) if isinstance(n, ast.Return))
+    ok = ok and "return self.distribution(*args,**kwargs).logd(self.data)" in views(repo, lk, lg)
     chk.add("C01-R2", f"{lk.qual}._logd", ok, site(repo, lg), "likelihood value = logd of the conditioned data distribution at the data",
             "likelihood evaluation changed", lg)
     post = repo.cls("cuqi/distribution/_posterior.py:Posterior")
     lp = repo.method(post, "logpdf")[1]
-    ok = any(_norm(n.value) == "self.likelihood.logd(*args,**kwargs)+self.prior.logd(*args,**kwargs)" for n in ast.walk(lp) if isinstance(n, ast.Return))
+    V = views(repo, post, lp)
+    ok = "return self.likelihood.logd(*args,**kwargs)+self.prior.logd(*args,**kwargs)" in V or "return self.prior.logd(*args,**kwargs)+self.likelihood.logd(*args,**kwargs)" in V
     chk.add("C01-R2", f"{post.qual}.logpdf", ok, site(repo, lp), "likelihood.logd + prior.logd", "posterior log-density is not the sum of its two components' logd", lp)
     dl = repo.method(dist, "_logd")[1]
-    ok = any(_norm(n.value) == "self.logpdf(*args)" for n in ast.walk(dl) if isinstance(n, ast.Return))
+    ok = "return self.logpdf(*args)" in views(repo, dist, dl)
     chk.add("C01-R2", f"{dist.qual}._logd", ok, site(repo, dl), "_logd = logpdf", "Distribution._logd is not logpdf", dl)
+
+
+SELECT = "{_k0:_k1 for _k0,_k1 in kwargs.items() if _k0 in $d.get_parameter_names()}"
 
 
 def _r3_r4(chk, repo):
     jd = repo.cls(f"{JD}:JointDistribution")
     f = repo.method(jd, "logd")[1]
-    t = _norm(f)
-    ok = "logd=0fordensityinself._densities:logd_kwargs={key:valuefor(key,value)inkwargs.items()ifkeyindensity.get_parameter_names()}logd+=density.logd(**logd_kwargs)returnlogd" in t.replace("forkey,valuein", "for(key,value)in")
-    chk.add("C01-R3", f"{jd.qual}.logd/loop", ok, site(repo, f), "sum over ALL factors of factor.logd(its own variables)",
-            "joint log-density does not sum every factor evaluated at exactly its own variables", f)
+    S = stmts(repo, jd, f)
+    b, _ = unify(["$acc=0", "for: $d : self._densities", "$acc+=$d.logd(**" + SELECT + ")", "return $acc"], S)
+    import re
+    rec = any(re.match(r"^[A-Za-z_]\w*\+=[A-Za-z_]\w*\.logd\(", t) for t, _ in S)     # landmark: a loop accumulates factor.logd(...)
+    chk.decide("C01-R3", f"{jd.qual}.logd/loop", b is not None, rec, site(repo, f), "sum over ALL factors of factor.logd(its own variables)",
+               "joint log-density does not sum every factor evaluated at exactly its own variables", f)
     c = repo.method(jd, "_condition")[1]
-    t = _norm(c).replace("forkey,valuein", "for(key,value)in")
-    ok = "cond_kwargs={key:valuefor(key,value)inkwargs.items()ifkeyindensity.get_parameter_names()}" in t
-    chk.add("C01-R3", f"{jd.qual}._condition/selection", ok, site(repo, c), "each factor is conditioned on exactly the given variables it depends on",
-            "per-factor selection of conditioning variables changed", c)
-    for name, want in (("dim", "[dist.dimfordistinself._distributions]"), ("geometry", "[dist.geometryfordistinself._distributions]")):
+    S = stmts(repo, jd, c)
+    b, _ = unify(["for: ($i,$d) : enumerate($nj._densities)", "$nj._densities[$i]=$d(**" + SELECT + ")"], S)
+    rec = any(t.startswith("for:") and "enumerate(" in t and "._densities)" in t for t, _ in S)
+    if b is None:      # the new factor list built directly from conditioned copies
+        formB = pn("[_k0(**{_k1:_k2 for _k1,_k2 in kwargs.items() if _k1 in _k0.get_parameter_names()}) for _k0 in self._densities]")
+        if any(formB in t for t, _ in S):
+            b = {}
+        rec = rec or any("for _k0 in self._densities]" in t for t, _ in S)
+    chk.decide("C01-R3", f"{jd.qual}._condition/selection", b is not None, rec, site(repo, c), "each factor is conditioned on exactly the given variables it depends on",
+               "per-factor selection of conditioning variables changed", c)
+    for name, attr in (("dim", "dim"), ("geometry", "geometry")):
         p = jd.props.get(name)
-        ok = p is not None and any(_norm(n.value) == want for n in ast.walk(p.getter) if isinstance(n, ast.Return))
+        ok = p is not None and f"return[_k0.{attr} for _k0 in self._distributions]" in views(repo, jd, p.getter)
         chk.add("C01-R4", f"{jd.qual}.@{name}", ok, site(repo, p.getter) if p else "", f"{name} enumerates self._distributions", f"{name} does not enumerate the distributions in order")
     gp = repo.method(jd, "get_parameter_names")[1]
-    ok = any(_norm(n.value) == "[dist.namefordistinself._distributions]" for n in ast.walk(gp) if isinstance(n, ast.Return))
+    ok = "return[_k0.name for _k0 in self._distributions]" in views(repo, jd, gp)
     chk.add("C01-R4", f"{jd.qual}.get_parameter_names", ok, site(repo, gp), "names enumerate self._distributions in the same order as dim", "parameter names not in distribution order", gp)
     d = jd.props.get("_distributions")
-    ok = d is not None and "[distfordistinself._densitiesifisinstance(dist,Distribution)]" in _norm(d.getter)
+    ok = d is not None and "[_k0 for _k0 in self._densities if isinstance(_k0,Distribution)]" in views(repo, jd, d.getter)
     chk.add("C01-R4", f"{jd.qual}.@_distributions", ok, site(repo, d.getter) if d else "", "the distributions among the factors, in factor order", "_distributions changed")
     st = repo.cls(f"{JD}:_StackedJointDistribution")
     f = repo.method(st, "logd")[1]
-    body = [_norm(s) for s in strip_docstring(f.body)]
     x = func_params(f)[1]
-    want = ["split_indices=np.cumsum(super().dim)", f"inputs=np.split({x},split_indices[:-1])", "names=self.get_parameter_names()", "kwargs=dict(zip(names,inputs))", "returnsuper().logd(**kwargs)"]
-    chk.add("C01-R4", f"{st.qual}.logd", body == want, site(repo, f), "split by cumulative dims, zip with names in the same order",
-            f"stacked evaluation is {body}", f)
+    V = views(repo, st, f)
+    ok = f"return super().logd(**dict(zip(self.get_parameter_names(),np.split({x},np.cumsum(super().dim)[:-1]))))" in V
+    chk.add("C01-R4", f"{st.qual}.logd", ok, site(repo, f), "split by cumulative dims, zip with names in the same order",
+            f"stacked evaluation is not super().logd(**dict(zip(names, np.split(x, cumsum(dims)[:-1]))))", f)
     dens = repo.cls("cuqi/density/_density.py:Density")
     f = repo.method(dens, "logd")[1]
-    ok = "par_names=self.get_parameter_names()" in _norm(f) and "args=[kwargs[name]fornameinpar_names]" in _norm(f)
-    chk.add("C01-R4", f"{dens.qual}.logd/order", ok, site(repo, f), "keyword values re-ordered by the parameter-name list", "keyword re-ordering changed", f)
+    b = match(repo, dens, f, ["$pn=self.get_parameter_names()", "$a=[kwargs[_k0] for _k0 in $pn]"])
+    chk.add("C01-R4", f"{dens.qual}.logd/order", b is not None, site(repo, f), "keyword values re-ordered by the parameter-name list", "keyword re-ordering changed", f)
